@@ -298,6 +298,9 @@ func c03Loopback(c *Ctx) {
 		actions := []farm.Action{}
 		for i, d := range cs.dgrams {
 			delay := time.Millisecond
+			if ep.Proto == "udp" && serial%2 == 0 {
+				delay = 0 // back to back: the next datagram is already queued when the client reads this one
+			}
 			if ep.Proto == "tcp" {
 				if i == 1 {
 					// the first datagram decides on a directed path; anything further is sent late, and only if the
